@@ -8,7 +8,9 @@
   * `ts_step_div`, `ts_step_mod`, `ts_zero` : arithmetic of one step
   * `DivSpec`, `divStep_TS`   : one rung `divStep` (D128/Proofs/AddCode.lean) on a `TS` state
   * `stepL_spec`, `stepR_spec`: one `if exp <= -j {…}` / `if exp >= j {…}` statement
+  * `i16_add`, `i16_sub`, `i16_le_iff`, `i16_lt_iff`, `i16_ge_iff`, `i16_gt_iff` : `Int16` helpers
   * `loopL_spec`, `loopR_spec`: the final `for exp < 0 {…}` / `for exp > 0 {…}` loops
+  * `ladderL8_spec`, `ladderR8_spec` : the four `if` statements and the loop from any truncation state
   * `ladderL_spec`, `ladderR_spec` : from `if exp < -maxDigits` on: the continuation is applied to
                                 `⌊b0/10^n0⌋`, the sticky flag `b0 % 10^n0 ≠ 0` (and `dExp = oExp`)
 -/
@@ -298,5 +300,162 @@ theorem loopR_spec (b0 n0 : Nat) (hb0 : 0 < b0) (hn0 : n0 ≤ 12287) (s : SR) (n
     refine ⟨(b.1, b.2.1, b.2.2), e, ?_, ?_⟩
     · have := h.2.1; rw [hn00, Nat.sub_zero] at this; exact this
     · have := h.2.2; rw [hn00, Nat.sub_zero] at this; exact this
+
+/-! ## the whole ladder of a half -/
+
+theorem default_toNat : (default : U128).toNat = 0 := rfl
+
+/-- the ladder after `if exp < -maxDigits {…}` from any truncation state -/
+theorem ladderL8_spec {α : Type} (K : U128 → Int16 → Int8 → Go.GoM α) (oExp : Int16) (b0 n0 : Nat)
+    (hb0 : 0 < b0) (hn0 : n0 ≤ 12287) (ho0 : 0 ≤ oExp.toInt) (ho1 : oExp.toInt ≤ 12287)
+    (dSig : U128) (dExp exp : Int16) (trunc : Int8) (n : Nat)
+    (h : TS 1 b0 n0 dSig n trunc) (hexp : exp.toInt = -(n : Int)) (hdE : dExp.toInt = oExp.toInt - n) :
+    ∃ dS' t', dS'.toNat = b0 / 10 ^ n0 ∧ t' = (if b0 % 10 ^ n0 ≠ 0 then (1 : Int8) else 0) ∧
+      stepL U128.div1e8 (decide (exp ≤ -8)) 8 oExp (fun dSig dExp exp trunc =>
+      stepL U128.div10000 (decide (exp ≤ -4)) 4 oExp (fun dSig dExp exp trunc =>
+      stepL U128.div1000 (decide (exp ≤ -3)) 3 oExp (fun dSig dExp exp trunc =>
+      stepL U128.div100 (decide (exp ≤ -2)) 2 oExp (fun dSig dExp exp trunc => do
+        let s ← forIn Lean.Loop.mk (dSig, dExp, exp, trunc) (loopLBody oExp)
+        K s.1 s.2.1 s.2.2.2) dSig dExp exp trunc) dSig dExp exp trunc) dSig dExp exp trunc)
+        dSig dExp exp trunc = K dS' oExp t' := by
+  have hcond : ∀ (x : Int16) (m : Nat) (k : Int16) (j : Nat), x.toInt = -(m : Int) → k.toInt = -(j : Int) →
+      decide (x ≤ k) = true → j ≤ m := by
+    intro x m k j hx hk
+    rw [i16_le_iff, hx, hk]; omega
+  obtain ⟨s1, e1, x1, t1, n1, hT1, hx1, he1, eq1⟩ := stepL_spec U128.div1e8 8 divSpec_1e8 8 rfl (by omega)
+    (decide (exp ≤ -8)) oExp (fun dSig dExp exp trunc =>
+      stepL U128.div10000 (decide (exp ≤ -4)) 4 oExp (fun dSig dExp exp trunc =>
+      stepL U128.div1000 (decide (exp ≤ -3)) 3 oExp (fun dSig dExp exp trunc =>
+      stepL U128.div100 (decide (exp ≤ -2)) 2 oExp (fun dSig dExp exp trunc => do
+        let s ← forIn Lean.Loop.mk (dSig, dExp, exp, trunc) (loopLBody oExp)
+        K s.1 s.2.1 s.2.2.2) dSig dExp exp trunc) dSig dExp exp trunc) dSig dExp exp trunc)
+    b0 n0 hb0 hn0 ho0 ho1 dSig dExp exp trunc n h hexp hdE (hcond exp n (-8) 8 hexp rfl)
+  rw [eq1]
+  obtain ⟨s2, e2, x2, t2, n2, hT2, hx2, he2, eq2⟩ := stepL_spec U128.div10000 4 divSpec_10000 4 rfl (by omega)
+    (decide (x1 ≤ -4)) oExp (fun dSig dExp exp trunc =>
+      stepL U128.div1000 (decide (exp ≤ -3)) 3 oExp (fun dSig dExp exp trunc =>
+      stepL U128.div100 (decide (exp ≤ -2)) 2 oExp (fun dSig dExp exp trunc => do
+        let s ← forIn Lean.Loop.mk (dSig, dExp, exp, trunc) (loopLBody oExp)
+        K s.1 s.2.1 s.2.2.2) dSig dExp exp trunc) dSig dExp exp trunc)
+    b0 n0 hb0 hn0 ho0 ho1 s1 e1 x1 t1 n1 hT1 hx1 he1 (hcond x1 n1 (-4) 4 hx1 rfl)
+  rw [eq2]
+  obtain ⟨s3, e3, x3, t3, n3, hT3, hx3, he3, eq3⟩ := stepL_spec U128.div1000 3 divSpec_1000 3 rfl (by omega)
+    (decide (x2 ≤ -3)) oExp (fun dSig dExp exp trunc =>
+      stepL U128.div100 (decide (exp ≤ -2)) 2 oExp (fun dSig dExp exp trunc => do
+        let s ← forIn Lean.Loop.mk (dSig, dExp, exp, trunc) (loopLBody oExp)
+        K s.1 s.2.1 s.2.2.2) dSig dExp exp trunc)
+    b0 n0 hb0 hn0 ho0 ho1 s2 e2 x2 t2 n2 hT2 hx2 he2 (hcond x2 n2 (-3) 3 hx2 rfl)
+  rw [eq3]
+  obtain ⟨s4, e4, x4, t4, n4, hT4, hx4, he4, eq4⟩ := stepL_spec U128.div100 2 divSpec_100 2 rfl (by omega)
+    (decide (x3 ≤ -2)) oExp (fun dSig dExp exp trunc => do
+        let s ← forIn Lean.Loop.mk (dSig, dExp, exp, trunc) (loopLBody oExp)
+        K s.1 s.2.1 s.2.2.2)
+    b0 n0 hb0 hn0 ho0 ho1 s3 e3 x3 t3 n3 hT3 hx3 he3 (hcond x3 n3 (-2) 2 hx3 rfl)
+  rw [eq4]
+  obtain ⟨s', el, hs1, hs2, hs3⟩ := loopL_spec oExp b0 n0 hb0 hn0 ho0 ho1 (s4, e4, x4, t4) n4 hT4 hx4 he4
+  refine ⟨s'.1, s'.2.2.2, hs1, hs2, ?_⟩
+  simp only [el, RK.ok_bind, hs3]
+
+/-- the half `exp < 0` from `if exp < -maxDigits` on: `dSig` (= `b0 ≤ Cmax`) is divided by `10^n0`
+    (`n0 = -exp`), the sticky flag records a non-zero remainder, and `dExp` becomes `oExp` -/
+theorem ladderL_spec {α : Type} (K : U128 → Int16 → Int8 → Go.GoM α) (oExp : Int16) (n0 : Nat)
+    (hn0 : n0 ≤ 12287) (ho0 : 0 ≤ oExp.toInt) (ho1 : oExp.toInt ≤ 12287)
+    (dSig : U128) (dExp exp : Int16) (hb0 : 0 < dSig.toNat) (hb1 : dSig.toNat < 10 ^ 35)
+    (hexp : exp.toInt = -(n0 : Int)) (hdE : dExp.toInt = oExp.toInt - n0) :
+    ∃ dS' t', dS'.toNat = dSig.toNat / 10 ^ n0 ∧
+      t' = (if dSig.toNat % 10 ^ n0 ≠ 0 then (1 : Int8) else 0) ∧
+      ladderL K oExp dSig dExp exp 0 = K dS' oExp t' := by
+  unfold ladderL
+  simp only []
+  by_cases h35 : decide (exp < -35) = true
+  · have hn35 : 35 < n0 := by
+      rw [i16_lt_iff, hexp] at h35
+      have : (-35 : Int16).toInt = -35 := rfl
+      omega
+    have hnz : (dSig.w0 ||| dSig.w1 != 0) = true := by
+      rw [bne_iff_ne, ne_eq, ← beq_iff_eq, isZ_iff]; omega
+    rw [if_pos h35, if_pos hnz]
+    have hlt : dSig.toNat < 10 ^ n0 :=
+      lt_of_lt_of_le hb1 (Nat.pow_le_pow_right (by norm_num) (by omega))
+    exact ladderL8_spec K oExp dSig.toNat n0 hb0 hn0 ho0 ho1 default oExp 0 1 0
+      ⟨by omega, by rw [Nat.sub_zero, Nat.div_eq_of_lt hlt]; rfl,
+        by rw [Nat.sub_zero, Nat.mod_eq_of_lt hlt, if_pos (by omega)]⟩ rfl (by simp)
+  · rw [if_neg h35]
+    exact ladderL8_spec K oExp dSig.toNat n0 hb0 hn0 ho0 ho1 dSig dExp exp 0 n0
+      ⟨le_refl _, by simp, by simp [Nat.mod_one]⟩ hexp hdE
+
+theorem ladderR8_spec {α : Type} (K : U128 → Int8 → Go.GoM α) (b0 n0 : Nat)
+    (hb0 : 0 < b0) (hn0 : n0 ≤ 12287) (oSig : U128) (exp : Int16) (trunc : Int8) (n : Nat)
+    (h : TS (-1) b0 n0 oSig n trunc) (hexp : exp.toInt = (n : Int)) :
+    ∃ oS' t', oS'.toNat = b0 / 10 ^ n0 ∧ t' = (if b0 % 10 ^ n0 ≠ 0 then (-1 : Int8) else 0) ∧
+      stepR U128.div1e8 (decide (exp ≥ 8)) 8 (fun oSig exp trunc =>
+      stepR U128.div10000 (decide (exp ≥ 4)) 4 (fun oSig exp trunc =>
+      stepR U128.div1000 (decide (exp ≥ 3)) 3 (fun oSig exp trunc =>
+      stepR U128.div100 (decide (exp ≥ 2)) 2 (fun oSig exp trunc => do
+        let s ← forIn Lean.Loop.mk (oSig, exp, trunc) loopRBody
+        K s.1 s.2.2) oSig exp trunc) oSig exp trunc) oSig exp trunc) oSig exp trunc = K oS' t' := by
+  have hcond : ∀ (x : Int16) (m : Nat) (k : Int16) (j : Nat), x.toInt = (m : Int) → k.toInt = (j : Int) →
+      decide (x ≥ k) = true → j ≤ m := by
+    intro x m k j hx hk
+    rw [i16_ge_iff, hx, hk]; omega
+  obtain ⟨s1, x1, t1, n1, hT1, hx1, eq1⟩ := stepR_spec U128.div1e8 8 divSpec_1e8 8 rfl (by omega)
+    (decide (exp ≥ 8)) (fun oSig exp trunc =>
+      stepR U128.div10000 (decide (exp ≥ 4)) 4 (fun oSig exp trunc =>
+      stepR U128.div1000 (decide (exp ≥ 3)) 3 (fun oSig exp trunc =>
+      stepR U128.div100 (decide (exp ≥ 2)) 2 (fun oSig exp trunc => do
+        let s ← forIn Lean.Loop.mk (oSig, exp, trunc) loopRBody
+        K s.1 s.2.2) oSig exp trunc) oSig exp trunc) oSig exp trunc)
+    b0 n0 hb0 hn0 oSig exp trunc n h hexp (hcond exp n 8 8 hexp rfl)
+  rw [eq1]
+  obtain ⟨s2, x2, t2, n2, hT2, hx2, eq2⟩ := stepR_spec U128.div10000 4 divSpec_10000 4 rfl (by omega)
+    (decide (x1 ≥ 4)) (fun oSig exp trunc =>
+      stepR U128.div1000 (decide (exp ≥ 3)) 3 (fun oSig exp trunc =>
+      stepR U128.div100 (decide (exp ≥ 2)) 2 (fun oSig exp trunc => do
+        let s ← forIn Lean.Loop.mk (oSig, exp, trunc) loopRBody
+        K s.1 s.2.2) oSig exp trunc) oSig exp trunc)
+    b0 n0 hb0 hn0 s1 x1 t1 n1 hT1 hx1 (hcond x1 n1 4 4 hx1 rfl)
+  rw [eq2]
+  obtain ⟨s3, x3, t3, n3, hT3, hx3, eq3⟩ := stepR_spec U128.div1000 3 divSpec_1000 3 rfl (by omega)
+    (decide (x2 ≥ 3)) (fun oSig exp trunc =>
+      stepR U128.div100 (decide (exp ≥ 2)) 2 (fun oSig exp trunc => do
+        let s ← forIn Lean.Loop.mk (oSig, exp, trunc) loopRBody
+        K s.1 s.2.2) oSig exp trunc)
+    b0 n0 hb0 hn0 s2 x2 t2 n2 hT2 hx2 (hcond x2 n2 3 3 hx2 rfl)
+  rw [eq3]
+  obtain ⟨s4, x4, t4, n4, hT4, hx4, eq4⟩ := stepR_spec U128.div100 2 divSpec_100 2 rfl (by omega)
+    (decide (x3 ≥ 2)) (fun oSig exp trunc => do
+        let s ← forIn Lean.Loop.mk (oSig, exp, trunc) loopRBody
+        K s.1 s.2.2)
+    b0 n0 hb0 hn0 s3 x3 t3 n3 hT3 hx3 (hcond x3 n3 2 2 hx3 rfl)
+  rw [eq4]
+  obtain ⟨s', el, hs1, hs2⟩ := loopR_spec b0 n0 hb0 hn0 (s4, x4, t4) n4 hT4 hx4
+  refine ⟨s'.1, s'.2.2, hs1, hs2, ?_⟩
+  simp only [el, RK.ok_bind]
+
+/-- the half `exp > 0` from `if exp > maxDigits` on: `oSig` (`≤ Cmax`) is divided by `10^n0`
+    (`n0 = exp`), the sticky flag `-1` records a non-zero remainder -/
+theorem ladderR_spec {α : Type} (K : U128 → Int8 → Go.GoM α) (n0 : Nat) (hn0 : n0 ≤ 12287)
+    (oSig : U128) (exp : Int16) (hb0 : 0 < oSig.toNat) (hb1 : oSig.toNat < 10 ^ 35)
+    (hexp : exp.toInt = (n0 : Int)) :
+    ∃ oS' t', oS'.toNat = oSig.toNat / 10 ^ n0 ∧
+      t' = (if oSig.toNat % 10 ^ n0 ≠ 0 then (-1 : Int8) else 0) ∧
+      ladderR K oSig exp 0 = K oS' t' := by
+  unfold ladderR
+  simp only []
+  by_cases h35 : decide (exp > 35) = true
+  · have hn35 : 35 < n0 := by
+      rw [i16_gt_iff, hexp] at h35
+      have : (35 : Int16).toInt = 35 := rfl
+      omega
+    have hnz : (oSig.w0 ||| oSig.w1 != 0) = true := by
+      rw [bne_iff_ne, ne_eq, ← beq_iff_eq, isZ_iff]; omega
+    rw [if_pos h35, if_pos hnz]
+    have hlt : oSig.toNat < 10 ^ n0 :=
+      lt_of_lt_of_le hb1 (Nat.pow_le_pow_right (by norm_num) (by omega))
+    exact ladderR8_spec K oSig.toNat n0 hb0 hn0 default 0 (-1) 0
+      ⟨by omega, by rw [Nat.sub_zero, Nat.div_eq_of_lt hlt]; rfl,
+        by rw [Nat.sub_zero, Nat.mod_eq_of_lt hlt, if_pos (by omega)]⟩ rfl
+  · rw [if_neg h35]
+    exact ladderR8_spec K oSig.toNat n0 hb0 hn0 oSig exp 0 n0 ⟨le_refl _, by simp, by simp [Nat.mod_one]⟩ hexp
 
 end AD
